@@ -272,6 +272,9 @@ def check(run: Run) -> None:
     # ---------------- R5
     check_env_merge(run, m, "C07.R5")
 
+    # ---------------- R6
+    check_inherited_lookup(run, m, "C07.R6")
+
 
 def _self_fact(a: ast.AST, pol: bool):
     """True: this path is for the `self` parameter; False: non-self; None: unrelated."""
@@ -469,3 +472,25 @@ def check_patch_back(run: Run, ctx, m, mod: str, rule: str) -> None:
                 if not (about_orig and is_none_test):
                     extra.append(ast.unparse(a))
             run.check(not extra, rule, vc, n, f"the {n.targets[0].attr} of the processed call is copied back whenever there is an original", f"patch-back of .{n.targets[0].attr} happens only when {' and '.join(extra)[:140]}: other rewrites of a call that is the whole body of a nested lambda (a callback renaming the method, keywords moved to positional slots) are lost in the emitted query", f"orig_ast.{n.targets[0].attr} = node.{n.targets[0].attr} unconditionally")
+
+
+def check_inherited_lookup(run: Run, m, rule: str) -> None:
+    """what a class declares is looked up with inheritance in view (hasattr / getattr / __mro__ / get_type_hints):
+    an object's own __dict__ (or vars()) does not contain what its base classes declare."""
+    run.rule(rule, "type introspection sees inherited declarations: no lookup in an object's own __dict__ / vars() in util_types / type_based_replacement")
+    n_fn = 0
+    for fi in [f for f in m.funcs.values() if f.module.name in ("func_adl.util_types", "func_adl.type_based_replacement")]:
+        n_fn += 1
+        for n in own_nodes(fi):
+            base = None
+            if isinstance(n, ast.Attribute) and n.attr == "__dict__":
+                base = n.value
+            elif isinstance(n, ast.Call) and isinstance(n.func, ast.Name) and n.func.id == "vars" and n.args:
+                base = n.args[0]
+            elif isinstance(n, ast.Call) and isinstance(n.func, ast.Name) and n.func.id == "getattr" and len(n.args) >= 2 and isinstance(n.args[1], ast.Constant) and n.args[1].value == "__dict__":
+                base = n.args[0]
+            if base is None:
+                continue
+            is_module = isinstance(base, ast.Name) and base.id in fi.module.imports and base.id not in fi.params
+            run.check(is_module, rule, fi, stmt_of(n), "__dict__ is read from a module only", f"{fi.name} looks into the own __dict__ of {ast.unparse(base)}: declarations inherited from a base class (generic bases, annotations, callbacks) are not in it, so a class that derives plainly from a typed collection / model class is no longer followed", "hasattr(..) / getattr(..) / cls.__mro__")
+    run.floor(rule, n_fn, 20, "functions of the type-introspection modules")
